@@ -48,6 +48,8 @@ def bases(cls):
         # wedge5_nano: the same wedge in nanometres (coordinates 4e-9 .. 11e-9): absolute tolerances must not matter
         return {"wedge5": dict(v=wedge), "box123": dict(v=_box(1, 2, 3, (5, 5, -7))), "cube": dict(v=_box(2, 2, 2, (-9, 4, 3))),
                 "wedge5_nano": dict(v=wedge, scale=1e-9),
+                # a hundred thousand sizes from the origin: whatever is re-derived after a mutation must not cancel against the offset
+                "wedge5_far": dict(v=wedge, shift=(300000.0, -200000.0, 100000.0)),
                 # the mean of the vertices is the origin, the centroid (0, 0, 1/4) is not
                 "pyr_vmean0": dict(v=[[1, 1, -1], [-1, 1, -1], [1, -1, -1], [-1, -1, -1], [0, 0, 4]])}
     if cls == "Polyhedron":
@@ -114,7 +116,7 @@ def build(cls, spec):
         if cls == "ConvexPolygon":
             return S.ConvexPolygon(np.array(v3), normal=n)
         return S.ConvexSpheropolygon(np.array(v3), spec["r"], normal=n)
-    va = np.array(v, dtype=float) * spec.get("scale", 1.0)
+    va = np.array(v, dtype=float) * spec.get("scale", 1.0) + np.array(spec.get("shift", (0.0, 0.0, 0.0)) if len(spec.get("shift", ())) == 3 else (0.0, 0.0, 0.0))
     if cls == "ConvexPolyhedron":
         return S.ConvexPolyhedron(va)
     if cls == "ConvexSpheropolyhedron":
